@@ -4,34 +4,39 @@ import (
 	internaltypes "lunar/engine/streams/internal-types"
 	publictypes "lunar/engine/streams/public-types"
 	"lunar/toolkit-core/urltree"
+	"strings"
 
 	"github.com/rs/zerolog/log"
 )
 
 type FilterTree struct {
 	tree *urltree.URLTree[FilterNode]
+	// filter nodes by declared URL (trimmed as the tree trims it): a flow is merged only into the node
+	// of its OWN pattern
+	nodes map[string]*FilterNode
 }
 
 func NewFilterTree() internaltypes.FilterTreeI {
 	return &FilterTree{
-		tree: urltree.NewURLTree[FilterNode](false, 0),
+		tree:  urltree.NewURLTree[FilterNode](false, 0),
+		nodes: map[string]*FilterNode{},
 	}
 }
 
 // Add a flow with specified filter to the filter tree
 func (f *FilterTree) AddFlow(flow internaltypes.FlowI) error {
 	filter := flow.GetFilter()
-	result := f.tree.Lookup(filter.GetURL())
-	if result.Match && result.NormalizedURL == filter.GetURL() {
+	urlKey := strings.Trim(filter.GetURL(), "./")
+	if existingNode, found := f.nodes[urlKey]; found {
 		log.Debug().Msgf("Adding %s flow to existing filter tree: %v",
 			flow.GetType().String(), filter.GetURL())
 		switch flow.GetType() {
 		case internaltypes.UserFlow:
-			return result.Value.addUserFlow(flow)
+			return existingNode.addUserFlow(flow)
 		case internaltypes.SystemFlowStart:
-			return result.Value.addSystemFlowStart(flow)
+			return existingNode.addSystemFlowStart(flow)
 		case internaltypes.SystemFlowEnd:
-			return result.Value.addSystemFlowEnd(flow)
+			return existingNode.addSystemFlowEnd(flow)
 		}
 	}
 	var filterNode *FilterNode
@@ -60,7 +65,11 @@ func (f *FilterTree) AddFlow(flow internaltypes.FlowI) error {
 			filterRequirements: newFilterRequirements(nil),
 		}
 	}
-	return f.tree.InsertDeclaredURL(filter.GetURL(), filterNode)
+	if err := f.tree.InsertDeclaredURL(filter.GetURL(), filterNode); err != nil {
+		return err
+	}
+	f.nodes[urlKey] = filterNode
+	return nil
 }
 
 // Get flow based on the API stream
